@@ -46,16 +46,28 @@ func isAllowedPossibleValue(opt *Option, value interface{}) error {
 		return nil
 	}
 
+	// A nil value (e.g. a JSON null) or a value of an uncomparable type (e.g. a
+	// slice) can never equal a primitive possible value; reflect and the ==
+	// operator would panic on them.
+	valueType := reflect.TypeOf(value)
+	valueComparable := valueType != nil && valueType.Comparable()
+
 	for _, val := range opt.PossibleValues {
 		compareAgainst := val.Value
-		valueType := reflect.TypeOf(value)
+		possibleType := reflect.TypeOf(val.Value)
 
 		// loading int's from the configuration JSON does not preserve the correct type
 		// as we get float64 instead. Make sure to convert them before.
-		if reflect.TypeOf(val.Value).ConvertibleTo(valueType) {
-			compareAgainst = reflect.ValueOf(val.Value).Convert(valueType).Interface()
+		// Only use the conversion if it is lossless, so that a wrapping or truncating
+		// conversion (e.g. int(256) to uint8(0)) cannot make a different value match.
+		if valueComparable && possibleType != nil && possibleType.Comparable() &&
+			possibleType.ConvertibleTo(valueType) && valueType.ConvertibleTo(possibleType) {
+			converted := reflect.ValueOf(val.Value).Convert(valueType)
+			if converted.Convert(possibleType).Interface() == val.Value {
+				compareAgainst = converted.Interface()
+			}
 		}
-		if compareAgainst == value {
+		if valueComparable && compareAgainst == value {
 			return nil
 		}
 
